@@ -194,6 +194,15 @@ def edits(m, n, op, quiet, sid1, idx1, two, sid2, idx2, **kw):
     for x, par in zip(nodes[1:] + leaves, [nodes[i] for i in ip] + [nodes[i] for i in lp]):
         if x.parent is not par:
             return "an existing node was re-attached"
+    # the next file of a directory starts again at sentence id 1: a second tree with the same id, same parameters,
+    # same process gets the same edits
+    nodes2, _leaves2 = build_e1(m, n, ip, lp, sid=1)
+    try:
+        out2 = fn(nodes2[0], **params)
+    except Exception as e:      # noqa
+        return "%s on a second tree with the same sentence id failed: %s: %s" % (fn.__name__, type(e).__name__, e)
+    if _toks(out2) != exp:
+        return "%s with %s on a second tree with the same sentence id: tokens %s, expected %s" % (fn.__name__, lines, _toks(out2), exp)
     return ""
 
 
